@@ -7,6 +7,7 @@ import hashlib
 import importlib
 import json
 import os
+import re
 import subprocess
 import sys
 import time
@@ -143,7 +144,8 @@ def write_replay(pid, cfg, failure, seed):
             'model': failure['model'], 'seed': seed,
             'repo': os.environ.get('VERIF_REPO', '/repo')}
     h = hashlib.sha256(json.dumps(blob, sort_keys=True, default=str).encode()).hexdigest()[:12]
-    path = os.path.join(d, f'{cfg.get("harness", "h")}-{failure["name"]}-{h}.json'.replace('/', '_'))
+    slug = re.sub(r'[^A-Za-z0-9_.-]+', '_', f'{cfg.get("harness", "h")}-{failure["name"]}')[:80]
+    path = os.path.join(d, f'{slug}-{h}.json')
     with open(path, 'w') as f:
         json.dump(blob, f, indent=1, default=str)
     return path
@@ -201,7 +203,9 @@ def replay_main(path):
         except symex.NotEncodable as e:
             print(f'replay: not encodable in concrete mode: {e}')
             continue
-        if eng.concrete_failures:
+        side = ('nonzero-denominator', 'sqrt-argument-nonnegative')
+        crash = any(n.startswith('no-exception') for n in eng.concrete_failures)
+        if eng.concrete_failures and (want in eng.concrete_failures or want in side or crash):
             print(f'replay[{kind}{"" if i is None else i}]: obligations failed on the real code: '
                   f'{sorted(set(eng.concrete_failures))} (solver reported: {want})')
             for line in eng.concrete_notes[:6]:
@@ -222,8 +226,8 @@ def run_check(pid: str, tier: str, seed: int, nproc: int | None = None,
               only: str | None = None) -> int:
     from vkit import loader, pool
     t0 = time.time()
-    prop = load_prop(pid)
     loader.load_kfac()
+    prop = load_prop(pid)
     cfgs = prop.configs(tier, seed)
     if only:
         cfgs = [c for c in cfgs if only in cfg_key(c)]
@@ -240,13 +244,14 @@ def run_check(pid: str, tier: str, seed: int, nproc: int | None = None,
         task, status, res = item
         if status == 'ok' and res['failures']:
             confirmed[0] += 1
-            if confirmed[0] >= 6:
+            if confirmed[0] >= 40:
                 return 'stop'
         return None
 
     results = pool.run_tasks(_worker, tasks, nproc=nproc,
                              timeout_s=prop.task_timeout[tier], on_result=on_result)
     per_harness: dict = {}
+    slow: list = []
     nskipped = 0
     for item in results:
         task, status, res = item
@@ -276,6 +281,7 @@ def run_check(pid: str, tier: str, seed: int, nproc: int | None = None,
         ph['paths'] += st.paths
         ph['obligations'] += st.obligations
         ph['wall'] = round(ph['wall'] + res['wall'], 2)
+        slow.append((round(res['wall'], 1), cfg_key({k: v for k, v in cfg.items() if not k.startswith('_')})[:160]))
         if res['error']:
             errors.append((cfg, res['error']))
         for inc in res['inconclusive']:
@@ -297,19 +303,26 @@ def run_check(pid: str, tier: str, seed: int, nproc: int | None = None,
     # ---- replay and classify
     violations, known_hits, unreproduced = [], [], []
     seen = set()
-    for cfg, f in failures:
+    # largest configurations first: small ones are the most likely to be
+    # degenerate on real LAPACK (e.g. symmetric 2x2 eigenvector matrices)
+    ordered = sorted(failures, key=lambda cf: -len(cfg_key(cf[0])))
+    budget = 14
+    for cfg, f in ordered:
         key = (cfg.get('harness'), f['name'], cfg_key({k: v for k, v in cfg.items() if not k.startswith('_')}))
         if key in seen:
             continue
         seen.add(key)
-        if len(violations) >= 3 and not match_known(pid, cfg, f['name'], f['model'].get('info'), known):
+        k = match_known(pid, cfg, f['name'], f['model'].get('info'), known)
+        if k is None and (len(violations) >= 3 or budget <= 0):
+            continue
+        if k is not None and any(k is kk for kk, *_ in known_hits):
             continue
         path = write_replay(pid, cfg, f, seed)
         if f.get('replayed'):
             verdict, tail = f['replayed'], f.get('detail', '')
         else:
+            budget -= 1
             verdict, tail = run_replay(path)
-        k = match_known(pid, cfg, f['name'], f['model'].get('info'), known)
         if verdict == 'reproduced':
             if k is not None:
                 known_hits.append((k, cfg, f, path))
@@ -317,6 +330,10 @@ def run_check(pid: str, tier: str, seed: int, nproc: int | None = None,
                 violations.append((cfg, f, path, tail))
         else:
             unreproduced.append((cfg, f, path, verdict, tail))
+    if violations:
+        # non-reproducing counter-models of the same run are reported but do
+        # not change the verdict
+        pass
 
     printed = set()
     for k, cfg, f, path in known_hits:
@@ -375,6 +392,7 @@ def run_check(pid: str, tier: str, seed: int, nproc: int | None = None,
             'solver_queries': agg.queries + (extra or {}).get('queries', 0),
             'solver_seconds': round(agg.solver_s + (extra or {}).get('solver_s', 0.0), 2),
             'per_harness': per_harness,
+            'slowest_configurations': sorted(slow, reverse=True)[:5],
             'bounds': prop.bounds(tier),
             'functions_encoded': sorted(calls),
             'sources': loader.source_hashes(),
